@@ -359,13 +359,20 @@ def task_events(pd, cse, tier, seed):
             kb = f"{p.id}/cse={int(cse)}/event-underflow"
             info = {"program": p.id, "cse": cse, "kind": "regime", "regime": "exp underflow"}
             try:
+                want = pyh.evalf_spec(p.update, e)
+                mags = {s: X.evalmag(p.update[s], e) for s in p.state}
+            except Exception:
+                n -= 1
+                continue  # the specification itself is not defined in doubles here (e.g. an overflow elsewhere)
+            if not all(math.isfinite(want[s]) and math.isfinite(mags[s]) for s in p.state):
+                n -= 1
+                continue
+            try:
                 got = concrete_model(p, cse, e)
             except Exception as ex:
                 path = write_replay(PID, {"key": kb, "info": info, "inputs": e, "exception": f"{type(ex).__name__}: {ex}"})
                 part.violation(kb, f"Model.model raises {type(ex).__name__}: {ex} at {e}, where the update expressions are defined (an exp argument lies in [-1000, -760]: the result underflows)", path)
                 return part.d
-            want = pyh.evalf_spec(p.update, e)
-            mags = {s: X.evalmag(p.update[s], e) for s in p.state}
             bad = [s for s in p.state if not (math.isfinite(got[s]) and abs(got[s] - want[s]) <= 1e-9 * mags[s] + 1e-300)]
             part.record(Q("sat" if bad else "unsat", None, 0.0, ""), f"{kb}: model == specification at a solver-picked underflow point (concrete replay)")
             if bad:
@@ -373,7 +380,7 @@ def task_events(pd, cse, tier, seed):
                 part.violation(kb, f"Model.model differs from the update expressions at the underflow point {e}: " + ", ".join(f"{s}: got {got[s]!r} expected {want[s]!r}" for s in bad[:3]), path)
                 return part.d
     part.extra("py_underflow_event_points", n)
-    if n == 0:
+    if n == 0 and p.id == "P33-gaussian-weight":
         part.harness_error(f"{p.id}: vacuity: no underflow point found for any exp application")
     return part.d
 
@@ -388,6 +395,8 @@ def run(tier, seed):
 
     tasks += [(with_extra_validation, (task, CP.P3(), True, tier, seed)), (with_extra_validation, (task, CP.P1(), False, tier, seed))]
     tasks += [(task_events, (CP.P33(), True, tier, seed)), (task_events, (CP.P33(), False, tier, seed)), (with_extra_validation, (task_events, CP.P33(), True, tier, seed)), (with_extra_validation, (task_events, CP.P33(), False, tier, seed))]
+    if tier == "thorough":
+        tasks += [(with_extra_validation, (task_events, p_, True, tier, seed)) for p_ in ps]
     first = [t for t in tasks if t[0] is task_regimes]
     for d in pmap_staged(_dispatch, first, [t for t in tasks if t[0] is not task_regimes]):
         rep.merge(d)
